@@ -70,14 +70,16 @@ def integrator_classes(repo):
 
 def tasks(tier):
     return ['static', 'accel', 'traces', 'frames', 'bounded', 'canary',
-            'helper_text']
+            'helper_text', 'forward']
 
 
 def static_module(repo):
     import os
     with open(os.path.join(repo.root, MAKO)) as f:
         txt = f.read()
-    a = txt.index('    cpdef compute_accelerations')
+    # from set_nnps (the first method after the templated constructor) to
+    # the templated one_timestep
+    a = txt.index('    def set_nnps(self')
     b = txt.index('    cdef one_timestep')
     frag = txt[a:b]
     if '${' in frag or '\n%' in frag:
@@ -103,6 +105,8 @@ def run_task(task, ctx):
         return task_bounded(ctx, repo)
     if task == 'helper_text':
         return task_helper_text(ctx, repo)
+    if task == 'forward':
+        return task_forward(ctx, repo)
     if task == 'canary':
         t = z3.Real('ct')
         ctx.canary('canary.must_fail', Obligation('c', [], t + 1 == t))
@@ -171,6 +175,19 @@ def task_static(ctx, repo):
                 okp = okp and not ev2
         obs.append(Obligation('poststage.frame.%s' % has_cb, [], _bool(okp),
                               W))
+    # set_post_stage_callback stores what do_post_stage calls
+    fcb = mc.methods(cls).get('set_post_stage_callback')
+    okc = False
+    if fcb is not None:
+        obj = SymObject(cls, dict(_post_stage_callback=None), 'self')
+        obj.module = mc
+        ex = Executor(repo, mc, qualname=cls + '.set_post_stage_callback')
+        outs = ex.exec_function(fcb, dict(self=obj, callback='CB'))
+        ctx.function(mc, fcb, cls + '.set_post_stage_callback', ex.dropped)
+        okc = len(outs) == 1 and outs[0].state.env['self'].attrs.get(
+            '_post_stage_callback') == 'CB'
+    obs.append(Obligation('set_post_stage_callback.stores_the_callback', [],
+                          _bool(okc), W))
     # delegation
     ev3 = []
     integ = SymObject(None, dict(
@@ -533,6 +550,88 @@ def task_bounded(ctx, repo):
     ctx.prove('bounded_checks_ran', [Obligation(
         'ran', [], _bool(res is not None), m.path)],
         info='bounded, not proved: see coverage.bounded')
+
+
+# ------------------------------------------------------- forwarding methods
+def task_forward(ctx, repo):
+    """The thin Python-side methods between the solver and the compiled
+    integrator: step(time, dt) calls c_integrator.step once with the same
+    time and dt; set_nnps / set_parallel_manager store the object and hand
+    the same object on; set_post_stage_callback hands the callback on;
+    set_compiled_object stores it; set_acceleration_evals keeps a list and
+    wraps a single evaluator; initial_acceleration(t, dt) evaluates the first
+    evaluator at (t, dt)."""
+    m = repo.module('pysph.sph.integrator')
+    W = m.path
+    M = m.methods('Integrator')
+    obs = []
+
+    def run(fname, args, attrs):
+        calls = []
+
+        def rec(tag):
+            return Native(lambda e, s_, a, k, n: calls.append(
+                (tag, list(a), dict(k))))
+        ci = SymObject(None, dict(step=rec('ci.step'),
+                                  set_nnps=rec('ci.set_nnps'),
+                                  set_parallel_manager=rec('ci.set_pm'),
+                                  set_post_stage_callback=rec('ci.set_cb')),
+                       'c_integrator')
+        ev = [SymObject(None, dict(compute=rec('eval%d.compute' % i)),
+                        'a_eval%d' % i) for i in range(2)]
+        base = dict(c_integrator=ci, acceleration_evals=ev, nnps='old_nnps',
+                    parallel_manager='old_pm')
+        base.update(attrs)
+        obj = SymObject('Integrator', base, 'self')
+        obj.module = m.name
+        ex = Executor(repo, m, qualname='Integrator.' + fname, merge=False,
+                      externals={'isinstance': lambda e, s_, a, k, n:
+                                 isinstance(a[0], (list, tuple))})
+        outs = ex.exec_function(M[fname], dict(self=obj, **args))
+        ctx.function(m, M[fname], 'Integrator.' + fname, ex.dropped)
+        return outs, calls, ci, ev
+    t, dt = z3.Real('time'), z3.Real('dt')
+    try:
+        outs, calls, ci, ev = run('step', dict(time=t, dt=dt), {})
+        obs.append(Obligation('forward.step', [], _bool(
+            len(outs) == 1 and calls == [('ci.step', [t, dt], {})]), W,
+            extra=dict(calls=str(calls)[:200])))
+        outs, calls, ci, ev = run('initial_acceleration', dict(t=t, dt=dt),
+                                  {})
+        obs.append(Obligation('forward.initial_acceleration', [], _bool(
+            len(outs) == 1 and calls == [('eval0.compute', [t, dt], {})]), W,
+            extra=dict(calls=str(calls)[:200])))
+        outs, calls, ci, ev = run('set_nnps', dict(nnps='NEW'), {})
+        obs.append(Obligation('forward.set_nnps', [], _bool(
+            len(outs) == 1 and calls == [('ci.set_nnps', ['NEW'], {})] and
+            outs[0].state.env['self'].attrs['nnps'] == 'NEW'), W))
+        outs, calls, ci, ev = run('set_parallel_manager', dict(pm='PM'), {})
+        obs.append(Obligation('forward.set_parallel_manager', [], _bool(
+            len(outs) == 1 and calls == [('ci.set_pm', ['PM'], {})] and
+            outs[0].state.env['self'].attrs['parallel_manager'] == 'PM'), W))
+        outs, calls, ci, ev = run('set_post_stage_callback',
+                                  dict(callback='CB'), {})
+        obs.append(Obligation('forward.set_post_stage_callback', [], _bool(
+            len(outs) == 1 and calls == [('ci.set_cb', ['CB'], {})]), W))
+        outs, calls, ci, ev = run('set_compiled_object',
+                                  dict(c_integrator='CI2'), {})
+        obs.append(Obligation('forward.set_compiled_object', [], _bool(
+            len(outs) == 1 and outs[0].state.env['self'].attrs[
+                'c_integrator'] == 'CI2' and not calls), W))
+        for tag, val, want in (('list', ['E0', 'E1'], ['E0', 'E1']),
+                               ('tuple', ('E0',), ('E0',)),
+                               ('single', 'E0', ['E0'])):
+            outs, calls, ci, ev = run('set_acceleration_evals',
+                                      dict(a_evals=val), {})
+            got = outs[0].state.env['self'].attrs['acceleration_evals'] \
+                if len(outs) == 1 else None
+            obs.append(Obligation('forward.set_acceleration_evals.' + tag, [],
+                                  _bool(got == want), W,
+                                  extra=dict(got=str(got))))
+    except VCError as e:
+        ctx.outside('forward', str(e))
+        return
+    ctx.prove('forward.solver_calls_reach_the_compiled_integrator', obs)
 
 
 # ------------------------------------------------ text emitted by the helper
